@@ -466,7 +466,7 @@ Proof.
       * intros i b Hi Hb. rewrite getf_setf by lia. unfold in_rng. cbn [fst snd]. destruct (i =? j) eqn:E0.
         -- assert (i = j) by lia. subst i. rewrite N.land_spec, wnot_testbit by apply mask_lt. rewrite mask_testbit by lia.
            rewrite Hv3. lia.
-        -- rewrite G2, G1. destruct ((idx + 1 <=? i) && (i <? idx + 1 + midc)) eqn:E1.
+        -- subst j. rewrite G2, G1. destruct ((idx + 1 <=? i) && (i <? idx + 1 + midc)) eqn:E1.
            ++ rewrite N.bits_0. lia.
            ++ destruct (i =? idx) eqn:E2; [assert (i = idx) by lia; subst i; rewrite Hpre by exact Hb; fold v; lia|lia].
       * intros Hall. rewrite (A2' Hall). cbn [andb]. apply N.eqb_eq. apply land_eq_of_bits. intros b Hm.
@@ -497,4 +497,138 @@ Proof.
     destruct (in_rng (x, x + count) (64 * i + b)) eqn:Ein.
     + rewrite (E2 eq_refl). reflexivity.
     + rewrite orb_false_r, andb_true_r. reflexivity.
+Qed.
+
+(* ---- completeness of the single-field claim (hence of all claims of at most 2 bits) ---- *)
+
+Lemma ctz_pos_spec p :
+  N.testbit (Npos p) (ctz_pos p) = true /\ forall b, b < ctz_pos p -> N.testbit (Npos p) b = false.
+Proof.
+  induction p as [q IH|q IH|]; cbn [ctz_pos].
+  - split; [reflexivity|]. intros b Hb. lia.
+  - destruct IH as [I1 I2]. change (N.pos q~0) with (2 * N.pos q). split.
+    + rewrite N.testbit_even_succ by lia. exact I1.
+    + intros b Hb. destruct (N.eq_dec b 0) as [->|Hne]; [apply N.testbit_even_0|].
+      replace b with (N.succ (N.pred b)) by lia. rewrite N.testbit_even_succ by lia. apply I2. lia.
+  - split; [reflexivity|]. intros b Hb. lia.
+Qed.
+
+Lemma ctz_spec x : x <> 0 -> x < W64 ->
+  ctz x < 64 /\ N.testbit x (ctz x) = true /\ forall b, b < ctz x -> N.testbit x b = false.
+Proof.
+  intros Hne Hx. destruct x as [|p]; [congruence|]. cbn [ctz]. destruct (ctz_pos_spec p) as [I1 I2].
+  split; [|split; assumption].
+  destruct (N.lt_ge_cases (ctz_pos p) 64) as [H|H]; [exact H|].
+  rewrite testbit_lt_W64_high in I1 by assumption. discriminate.
+Qed.
+
+(* position b is a free run of `count` bits inside the field `map` *)
+Definition free_at (map count b : N) : Prop := b + count <= 64 /\ N.land map (mask_ count b) = 0.
+
+Lemma free_at_bits map count b : b + count <= 64 ->
+  (N.land map (mask_ count b) = 0 <-> forall k, b <= k -> k < b + count -> N.testbit map k = false).
+Proof.
+  intros Hb. split.
+  - intros Hz k K1 K2. pose proof (land_zero_bit _ _ k Hz) as H. rewrite mask_testbit in H by exact Hb.
+    destruct (N.testbit map k); [|reflexivity]. lia.
+  - intros H. apply land_zero_of_bits. intros k. rewrite mask_testbit by exact Hb.
+    destruct ((b <=? k) && (k <? b + count)) eqn:E; [|apply andb_false_r]. rewrite H by lia. reflexivity.
+Qed.
+
+Lemma scan_field_complete fuel count map bitidx m :
+  1 <= count -> count <= 64 -> map < W64 -> m = wrap (N.shiftl (mask_ count 0) bitidx) ->
+  65 - bitidx <= N.of_nat fuel ->
+  (forall b, b < bitidx -> ~ free_at map count b) ->
+  scan_field fuel count map bitidx m = None -> forall b, ~ free_at map count b.
+Proof.
+  intros H1 H64 Hmap. revert bitidx m. induction fuel as [|fuel IH]; intros bitidx m Hm Hfuel Hbelow H b [B1 B2].
+  - apply (Hbelow b); [lia|split; assumption].
+  - cbn [scan_field] in H. destruct (bitidx <=? 64 - count) eqn:Eb.
+    2:{ apply (Hbelow b); [lia|split; assumption]. }
+    assert (Hmm : m = mask_ count bitidx) by (rewrite Hm; apply wrap_shiftl_mask; lia).
+    destruct (N.land map m =? 0) eqn:Ez; [discriminate|].
+    set (mapm := N.land map m) in *.
+    assert (Hnz : mapm <> 0) by lia.
+    (* the highest set bit of mapm lies in the window and is set in map *)
+    set (h := N.log2 mapm).
+    assert (Hh : N.testbit mapm h = true) by (apply N.bit_log2, Hnz).
+    unfold mapm in Hh. rewrite N.land_spec in Hh. apply andb_prop in Hh as [Hh1 Hh2].
+    rewrite Hmm, mask_testbit in Hh2 by lia.
+    assert (Hclz : 64 - clz mapm = h + 1).
+    { unfold clz. assert (E : (mapm =? 0) = false) by lia. rewrite E. fold h.
+      assert (mapm < W64) by (apply land_lt, Hmap).
+      assert (h < 64) by (apply N.log2_lt_pow2; [lia|exact H0]). lia. }
+    set (shift := if count =? 1 then 1 else 64 - clz mapm - bitidx) in *.
+    assert (Hshift : 1 <= shift /\ bitidx + shift <= h + 1) by (subst shift; destruct (count =? 1) eqn:E1; lia).
+    eapply (IH (bitidx + shift) _ _ _ _ H b); [split; assumption].
+    Unshelve.
+    + rewrite Hm. apply wrap_shiftl_shiftl.
+    + lia.
+    + intros b' Hb' [C1 C2]. destruct (N.lt_ge_cases b' bitidx) as [Hlt|Hge]; [apply (Hbelow b' Hlt); split; assumption|].
+      (* the window at b' contains the set bit h *)
+      rewrite free_at_bits in C2 by exact C1. rewrite (C2 h) in Hh1 by lia. discriminate.
+Qed.
+
+Theorem claim_field_complete bm idx count bm' :
+  bm_ok bm -> 1 <= count -> count <= 64 ->
+  try_find_claim_field bm idx count = (None, bm') -> forall b, ~ free_at (getf bm idx) count b.
+Proof.
+  intros Hok H1 H64 H. unfold try_find_claim_field in H.
+  set (map := getf bm idx) in *. assert (Hmap : map < W64) by (apply getf_lt, Hok).
+  destruct (map =? FULL) eqn:Ef.
+  - intros b [B1 B2]. assert (map = FULL) by lia. rewrite free_at_bits in B2 by exact B1.
+    specialize (B2 b ltac:(lia) ltac:(lia)). rewrite H0, FULL_testbit in B2. lia.
+  - destruct (scan_field _ _ _ _ _) as [[b0 m0]|] eqn:E; [discriminate|].
+    assert (Hnz : wnot map <> 0).
+    { intros Hz. apply Bool.not_true_iff_false in Ef. apply Ef. apply N.eqb_eq.
+      apply eq_of_bits64; [exact Hmap|apply FULL_lt|]. intros b Hb. rewrite FULL_testbit.
+      assert (Hw : N.testbit (wnot map) b = false) by (rewrite Hz; apply N.bits_0).
+      rewrite wnot_testbit in Hw by exact Hmap. destruct (N.testbit map b); lia. }
+    destruct (ctz_spec (wnot map) Hnz (wnot_lt _ Hmap)) as (C1 & C2 & C3).
+    eapply scan_field_complete; try eassumption; try reflexivity.
+    + unfold SCAN_FUEL. lia.
+    + intros b Hb [B1 B2]. rewrite free_at_bits in B2 by exact B1.
+      specialize (C3 b Hb). rewrite wnot_testbit in C3 by exact Hmap.
+      rewrite (B2 b) in C3 by lia. cbn in C3. lia.
+Qed.
+
+(* a claim of at most 2 bits succeeds exactly when some field contains a free run of that length *)
+Theorem small_claim_complete bm fields start count :
+  bm_ok bm -> nfields bm = fields -> 1 <= count -> count <= 2 ->
+  (exists x bm', try_find_from_claim_across bm fields start count = (Some x, bm')) <->
+  (exists i b, i < fields /\ free_at (getf bm i) count b).
+Proof.
+  intros Hok Hnf H1 H2. unfold try_find_from_claim_across. assert (E : (count <=? 2) = true) by lia. rewrite E.
+  unfold try_find_from_claim. rewrite find_from_loop_gloop. split.
+  - intros (x & bm' & H). destruct (N.eq_dec fields 0) as [->|Hf0]; [cbn in H; discriminate|].
+    apply gloop_some in H; [|lia|intros i b' Hi; apply small_field_F with (fields := fields); lia].
+    destruct H as (i & Hi & H). apply try_find_claim_field_spec in H; try lia.
+    destruct H as (bit & _ & Hb & Hz & _). exists i, bit. split; [exact Hi|split; assumption].
+  - intros (i & b & Hi & Hfree).
+    destruct (gloop _ (N.to_nat fields) bm fields start) as [[x|] bm'] eqn:G; [exists x, bm'; reflexivity|].
+    exfalso. apply gloop_none_all in G; [|lia|intros j b' Hj; apply small_field_F with (fields := fields); lia].
+    destruct G as [_ G]. specialize (G i Hi). cbv beta in G.
+    destruct (try_find_claim_field bm i count) as [r bm1] eqn:Et. cbn [fst] in G. subst r.
+    apply claim_field_complete in Et; try assumption; try lia. exact (Et b Hfree).
+Qed.
+
+(* ---- the limitation of claims of more than 2 bits: nothing starts in a field whose top bit is set ---- *)
+
+Lemma across_field_top_bit tries bm fields idx count retries :
+  bm_ok bm -> N.testbit (getf bm idx) 63 = true ->
+  try_find_claim_field_across tries bm fields idx count retries = (None, bm).
+Proof.
+  intros Hok Ht. assert (E : clz (getf bm idx) = 0) by (apply top_clz_zero; [exact Ht|apply getf_lt, Hok]).
+  destruct tries; cbn [try_find_claim_field_across]; rewrite E; reflexivity.
+Qed.
+
+Theorem multiblock_top_bit bm fields start count :
+  bm_ok bm -> 2 < count -> (forall i, i < fields -> N.testbit (getf bm i) 63 = true) ->
+  try_find_from_claim_across bm fields start count = (None, bm).
+Proof.
+  intros Hok Hc Htop. unfold try_find_from_claim_across. assert (E : (count <=? 2) = false) by lia. rewrite E.
+  destruct (N.eq_dec fields 0) as [->|Hf0]; [reflexivity|].
+  generalize start. induction (N.to_nat fields) as [|n IH]; intros st; cbn [find_from_across_loop]; [reflexivity|].
+  rewrite across_field_top_bit; [apply IH|exact Hok|].
+  apply Htop. destruct (fields <=? st) eqn:Es; lia.
 Qed.
